@@ -126,12 +126,12 @@ func Append(ctx context.Context, basen ipld.Node, db *h.DagBuilderHelper) (out i
 	}
 
 	// Last child in this node may not be a full tree, lets fill it up.
-	if err := appendFillLastChild(ctx, fsn, depth-1, repeatNumber, db); err != nil {
+	if err := appendFillLastChild(ctx, fsn, depth, repeatNumber, db); err != nil {
 		return nil, err
 	}
 
-	// after appendFillLastChild, our depth is now increased by one
-	if !db.Done() {
+	// appendFillLastChild completed a partially filled layer, continue with the next one
+	if repeatNumber != 0 && !db.Done() {
 		depth++
 	}
 
@@ -166,8 +166,14 @@ func appendFillLastChild(ctx context.Context, fsn *h.FSNodeOverDag, depth int, r
 		return err
 	}
 
-	// Fill out last child (may not be full tree)
-	newChild, nchildSize, err := appendRec(ctx, lastChild, db, depth-1)
+	// Fill out last child (may not be full tree). It belongs to the layer being
+	// filled (`depth`) unless that layer has not been started yet, in which case it
+	// is the final child of the previous layer.
+	lastChildDepth := depth
+	if repeatNumber == 0 {
+		lastChildDepth--
+	}
+	newChild, nchildSize, err := appendRec(ctx, lastChild, db, lastChildDepth)
 	if err != nil {
 		return err
 	}
@@ -218,17 +224,12 @@ func appendRec(ctx context.Context, fsn *h.FSNodeOverDag, db *h.DagBuilderHelper
 	}
 	// TODO: Same as `appendFillLastChild`, when is this case possible?
 
-	// If at correct depth, no need to continue
-	if depth == maxDepth {
-		return fsn, fsn.FileSize(), nil
-	}
-
 	if err := appendFillLastChild(ctx, fsn, depth, repeatNumber, db); err != nil {
 		return nil, 0, err
 	}
 
-	// after appendFillLastChild, our depth is now increased by one
-	if !db.Done() {
+	// appendFillLastChild completed a partially filled layer, continue with the next one
+	if repeatNumber != 0 && !db.Done() {
 		depth++
 	}
 
